@@ -48,16 +48,69 @@ def short(v):
     return not isinstance(v, str) or (len(v) <= 2 and v.isascii())
 
 
-def cmp_total_ok(x: Union[int, bool, str], y: Union[int, bool, str]) -> bool:
-    """
-    pre: short(x) and short(y)
-    post: _
-    """
+def _total(x, y):
     lt, gt, eq = call('<', x, y), call('>', x, y), call('=', x, y)
     le, ge, ne = call('<=', x, y), call('>=', x, y), call('<>', x, y)
     ok = all(isinstance(v, bool) for v in (lt, gt, eq, le, ge, ne))
     ok = ok and (lt + gt + eq == 1) and le == (lt or eq) and ge == (gt or eq) and ne == (not eq)
     return ok and lt == (key(x) < key(y)) and eq == (key(x) == key(y))
+
+
+ALPHA = 'aAbZz0 _'
+
+
+def small(s):
+    return len(s) <= 2 and all(ch in ALPHA for ch in s)
+
+
+def cmp_total_nn_ok(x: int, y: int) -> bool:
+    """
+    post: _
+    """
+    return _total(x, y)
+
+
+def cmp_total_nb_ok(x: Union[int, bool], y: bool) -> bool:
+    """
+    post: _
+    """
+    return _total(x, y) and _total(y, x)
+
+
+def cmp_total_ns_ok(x: Union[int, bool], y: str) -> bool:
+    """
+    pre: small(y)
+    post: _
+    """
+    return _total(x, y) and _total(y, x)
+
+
+A4 = 'aAb0'
+
+
+def pick(n0, n1, c0, c1, d0, d1):
+    """text of length 0..2 over the alphabet a A b 0, spelled by boolean selectors"""
+    n = sel(n0, n1)
+    return (A4[sel(c0, c1)] + A4[sel(d0, d1)])[:n]
+
+
+def cmp_total_ss_ok(n0: bool, n1: bool, c0: bool, c1: bool, d0: bool, d1: bool,
+                    m0: bool, m1: bool, e0: bool, e1: bool, f0: bool, f1: bool) -> bool:
+    """
+    pre: sel(n0, n1) < 3 and sel(m0, m1) < 3
+    post: _
+    """
+    # text against text (selectors: all 21 x 21 strings of length <= 2 over a A b 0)
+    return _total(pick(n0, n1, c0, c1, d0, d1), pick(m0, m1, e0, e1, f0, f1))
+
+
+def cmp_total_s1_ok(x: str, y: str) -> bool:
+    """
+    pre: len(x) <= 1 and len(y) <= 1 and x.isascii() and y.isascii()
+    post: _
+    """
+    # text against text, any ASCII character, length <= 1 (symbolic)
+    return _total(x, y)
 
 
 def cmp_blank_ok(x: Union[int, bool, str], left: bool) -> bool:
